@@ -530,6 +530,233 @@ function clean($x) { return 5; }
 })
 
 
+# nested-object writers (see nested_unit below for the generated family): a callee adds 4-6 NEW fields to an object
+# reached through one or two field hops from its parameter / from this / from a returned object, while the caller's
+# object already has fields of its own there. PROBE_FIELDS lists, per project, groups of field names that must end up in
+# ONE state's `fields` dict of s2space_p3 when the nested merge really happened (counted as evidence, with a floor).
+PROBE_FIELDS = {}
+
+_p("py_nested_fill", "python", {
+    "nested.py": """class Inner:
+    def __init__(self, seed):
+        self.seed = seed
+        self.kind = "inner"
+
+class Middle:
+    def __init__(self, seed):
+        self.inner = Inner(seed)
+        self.label = "m"
+
+class Outer:
+    def __init__(self, seed):
+        self.inner = Inner(seed)
+        self.middle = Middle(seed)
+        self.name = "o"
+
+    def refresh(self, v):
+        self.inner.sigma = v
+        self.inner.kappa = 2
+        self.inner.omega = "w"
+        self.inner.theta = v
+        self.inner.lambda_ = 5
+
+def fill(o, v):
+    o.inner.alpha = v
+    o.inner.beta = 2
+    o.inner.gamma = "g"
+    o.inner.delta = v
+    o.inner.epsilon = 3
+    o.inner.zeta = "z"
+
+def fill_deep(o, v):
+    o.middle.inner.amber = v
+    o.middle.inner.birch = 1
+    o.middle.inner.cedar = "c"
+    o.middle.inner.dune = v
+    o.middle.inner.ember = 4
+
+def build(v):
+    o = Outer(v)
+    return o
+
+def decorate(v):
+    o = build(v)
+    o.inner.flint = v
+    o.inner.grove = 1
+    o.inner.haze = "h"
+    o.inner.isle = v
+    return o
+
+def handler(req, other):
+    b = Outer(other)
+    fill(b, req)
+    fill_deep(b, req)
+    b.refresh(req)
+    d = decorate(req)
+    sink(b.inner.alpha)
+    return d.inner.flint
+
+def main():
+    handler(1, 2)
+
+main()
+""",
+})
+PROBE_FIELDS["py_nested_fill"] = [["seed", "kind", "alpha", "beta", "gamma", "delta", "epsilon", "zeta"],
+                                  ["seed", "kind", "amber", "birch", "cedar", "dune", "ember"],
+                                  ["seed", "kind", "sigma", "kappa", "omega", "theta", "lambda_"],
+                                  ["seed", "kind", "flint", "grove", "haze", "isle"]]
+
+_p("js_nested_fill", "javascript", {
+    "nested.js": """class Inner { constructor(seed) { this.seed = seed; this.kind = 'inner'; } }
+class Middle { constructor(seed) { this.inner = new Inner(seed); this.label = 'm'; } }
+class Outer {
+  constructor(seed) { this.inner = new Inner(seed); this.middle = new Middle(seed); this.name = 'o'; }
+  refresh(v) { this.inner.sigma = v; this.inner.kappa = 2; this.inner.omega = 'w'; this.inner.theta = v; this.inner.lambda = 5; }
+}
+function fill(o, v) { o.inner.alpha = v; o.inner.beta = 2; o.inner.gamma = 'g'; o.inner.delta = v; o.inner.epsilon = 3; o.inner.zeta = 'z'; }
+function fillDeep(o, v) { o.middle.inner.amber = v; o.middle.inner.birch = 1; o.middle.inner.cedar = 'c'; o.middle.inner.dune = v; o.middle.inner.ember = 4; }
+function build(v) { let o = new Outer(v); return o; }
+function decorate(v) { let o = build(v); o.inner.flint = v; o.inner.grove = 1; o.inner.haze = 'h'; o.inner.isle = v; return o; }
+function handler(req, other) {
+  let b = new Outer(other);
+  fill(b, req);
+  fillDeep(b, req);
+  b.refresh(req);
+  let d = decorate(req);
+  sink(b.inner.alpha);
+  return d.inner.flint;
+}
+function main() { handler(1, 2); }
+main();
+""",
+})
+PROBE_FIELDS["js_nested_fill"] = [["seed", "kind", "alpha", "beta", "gamma", "delta", "epsilon", "zeta"],
+                                  ["seed", "kind", "amber", "birch", "cedar", "dune", "ember"],
+                                  ["seed", "kind", "sigma", "kappa", "omega", "theta", "lambda"],
+                                  ["seed", "kind", "flint", "grove", "haze", "isle"]]
+
+
+def _add_file(project, rel, text, probe=None):
+    for h in HAND:
+        if h["name"] == project:
+            assert rel not in h["files"]
+            h["files"][rel] = text
+            if probe:
+                PROBE_FIELDS.setdefault(project, []).extend(probe)
+            return
+    raise KeyError(project)
+
+
+# the same shape as one extra unit (entry point `serve`) in the hand-written projects of the other frontends
+_add_file("java_service", "nest/Nested.java", """package nest;
+
+class Inner { int seed; String kind; int alpha; int beta; String gamma; int delta; int epsilon; String zeta; int sigma; int kappa; Inner(int seed) { this.seed = seed; this.kind = "inner"; } }
+class Outer {
+    Inner inner; String name;
+    Outer(int seed) { this.inner = new Inner(seed); this.name = "o"; }
+    void refresh(int v) { this.inner.sigma = v; this.inner.kappa = 2; }
+}
+public class Nested {
+    static void sink(int x) { }
+    static void fill(Outer o, int v) { o.inner.alpha = v; o.inner.beta = 2; o.inner.gamma = "g"; o.inner.delta = v; o.inner.epsilon = 3; o.inner.zeta = "z"; }
+    public static int serve(int req, int other) {
+        Outer b = new Outer(other);
+        fill(b, req);
+        b.refresh(req);
+        sink(b.inner.alpha);
+        return b.inner.delta;
+    }
+    public static void main(String[] args) { serve(1, 2); }
+}
+""",
+          probe=[["seed", "kind", "alpha", "beta", "gamma", "delta", "epsilon", "zeta"], ["seed", "kind", "sigma", "kappa"]])
+_add_file("ts_shapes", "nested.ts", """class Inner { seed: number; kind: string; constructor(seed: number) { this.seed = seed; this.kind = 'inner'; } }
+class Outer {
+  inner: Inner; name: string;
+  constructor(seed: number) { this.inner = new Inner(seed); this.name = 'o'; }
+  refresh(v: any): void { this.inner.sigma = v; this.inner.kappa = 2; this.inner.omega = 'w'; this.inner.theta = v; }
+}
+function fill(o: any, v: any): void { o.inner.alpha = v; o.inner.beta = 2; o.inner.gamma = 'g'; o.inner.delta = v; o.inner.epsilon = 3; o.inner.zeta = 'z'; }
+function serve(req: any, other: any): any {
+  let b = new Outer(other);
+  fill(b, req);
+  b.refresh(req);
+  sink(b.inner.alpha);
+  return b.inner.delta;
+}
+serve(1, 2);
+""",
+          probe=[["seed", "kind", "alpha", "beta", "gamma", "delta", "epsilon", "zeta"]])
+_add_file("php_service", "lib/nested.php", """<?php
+class Inner { public $seed; public $kind; function __construct($seed) { $this->seed = $seed; $this->kind = "inner"; } }
+class Outer {
+    public $inner; public $name;
+    function __construct($seed) { $this->inner = new Inner($seed); $this->name = "o"; }
+    function refresh($v) { $this->inner->sigma = $v; $this->inner->kappa = 2; $this->inner->omega = "w"; $this->inner->theta = $v; }
+}
+function fill($o, $v) { $o->inner->alpha = $v; $o->inner->beta = 2; $o->inner->gamma = "g"; $o->inner->delta = $v; $o->inner->epsilon = 3; $o->inner->zeta = "z"; }
+function serve($req, $other) {
+    $b = new Outer($other);
+    fill($b, $req);
+    $b->refresh($req);
+    sink($b->inner->alpha);
+    return $b->inner->delta;
+}
+serve(1, 2);
+""",
+          probe=[["seed", "kind", "alpha", "beta", "gamma", "delta", "epsilon", "zeta"], ["seed", "kind", "sigma", "kappa", "omega", "theta"]])
+_add_file("go_service", "nested.go", """package main
+
+type Inner struct {
+	seed  int
+	kind  string
+	alpha int
+	beta  int
+	gamma string
+	delta int
+}
+
+type Outer struct {
+	inner *Inner
+	name  string
+}
+
+func fill(o *Outer, v int) {
+	o.inner.alpha = v
+	o.inner.beta = 2
+	o.inner.gamma = "g"
+	o.inner.delta = v
+}
+
+func serve(req int, other int) int {
+	in := &Inner{seed: other, kind: "inner"}
+	b := &Outer{inner: in, name: "o"}
+	fill(b, req)
+	sink(b.inner.gamma)
+	return b.inner.delta
+}
+
+""",
+          probe=[["seed", "kind", "alpha", "beta", "gamma", "delta"]])
+_add_file("c_buffers", "nested.c", """struct inner { int seed; int alpha; int beta; int gamma; int delta; };
+struct outer { struct inner *in; int name; };
+void fill(struct outer *o, int v) {
+    o->in->alpha = v;
+    o->in->beta = 2;
+    o->in->gamma = 3;
+    o->in->delta = v;
+}
+int serve(int req, struct outer *b) {
+    b->in->seed = 7;
+    fill(b, req);
+    sink(b->in->alpha);
+    return b->in->delta;
+}
+""",
+          probe=[["seed", "alpha", "beta", "gamma", "delta"]])
+
+
 # ---------------------------------------------------------------------------------------------------
 # seeded generators of name-heavy programs
 
@@ -573,7 +800,9 @@ def gen_wide(lang, rng, n_funcs=14, n_classes=3, n_files=3):
     gen = {"python": _wide_py, "javascript": _wide_js, "typescript": _wide_ts, "java": _wide_java, "go": _wide_go,
            "c": _wide_c, "php": _wide_php}[lang]
     files = gen(rng, fnames, cnames, fields, methods, keys, calls, chain, n_files)
-    return {"lang": lang, "files": files, "extra": [], "settings": taint_settings(lang), "origin": "generated"}
+    rel, text, groups = nested_unit(lang, rng)          # plus one unit of nested-object writers (entry point `serve`)
+    files[rel] = text
+    return {"lang": lang, "files": files, "extra": [], "settings": taint_settings(lang), "origin": "generated", "probe_fields": groups}
 
 
 def _next(chain, f):
@@ -790,6 +1019,198 @@ def _wide_php(rng, fnames, cnames, fields, methods, keys, calls, chain, n_files)
     src.append(f"function handler($req, $other) {{ return {fnames[0]}($req, $other); }}")
     src.append("handler(1, 2);")
     return {"kinds.php": "\n".join(cls) + "\n", "main.php": "\n".join(src) + "\n"}
+
+
+# ---------------------------------------------------------------------------------------------------
+# nested-object writers: callees that add several NEW fields to an object reached through 1-2 field hops from a
+# parameter / from this / from a returned object, while the caller's object already has fields of its own there.
+# (P3 merges the callee's field summary into the argument's state one level down; the merged field dict is written
+# verbatim, as JSON, into the `fields` column of s2space_p3 — any set of field names on that path shows in the bytes.)
+
+def _cap(n):
+    return "".join(w.title() for w in n.split("_"))
+
+
+def nested_unit(lang, rng, tag="nestgen"):
+    """-> (relative path, text, probe groups). Entry point: serve(req, other)."""
+    leaf, mid, top = ("Leaf" + _cap(rng.choice(WORDS)), "Mid" + _cap(rng.choice(WORDS)), "Top" + _cap(rng.choice(WORDS)))
+    own = _names(rng, 2)                     # fields the leaf already has
+    routes = ["param1", "param2", "this", "returned"]
+    if lang == "c":
+        routes = ["param1", "param2", "returned"]
+    rng.shuffle(routes)
+    routes = routes[:rng.randint(3, len(routes))]
+    if "param1" not in routes:
+        routes[0] = "param1"
+    new = {}
+    taken = set(own)
+    for r in routes:
+        names = [n for n in _names(rng, rng.randint(4, 6)) if n not in taken]
+        taken.update(names)
+        new[r] = names
+    allnew = [n for r in routes for n in new[r]]
+    fn = {r: "fill_" + rng.choice(WORDS) + "_" + r for r in routes}
+    vals = lambda i: ["v", "2", '"g"', "v", "3", '"z"'][i % 6]
+    gen = {"python": _nested_py, "javascript": _nested_js, "typescript": _nested_ts, "java": _nested_java, "go": _nested_go,
+           "c": _nested_c, "php": _nested_php}[lang]
+    rel, text = gen(tag, leaf, mid, top, own, routes, new, allnew, fn, vals)
+    groups = [own + new[r] for r in routes if r != "returned"]      # names expected in ONE merged state's field dict
+    return rel, text, groups
+
+
+def _nested_py(tag, leaf, mid, top, own, routes, new, allnew, fn, vals):
+    L = [f"class {leaf}:", "    def __init__(self, seed):"] + [f"        self.{o} = seed" for o in own]
+    L += ["", f"class {mid}:", "    def __init__(self, seed):", f"        self.leaf = {leaf}(seed)", "        self.label = \"m\""]
+    L += ["", f"class {top}:", "    def __init__(self, seed):", f"        self.leaf = {leaf}(seed)", f"        self.mid = {mid}(seed)",
+          "        self.name = \"t\""]
+    if "this" in routes:
+        L += ["", f"    def {fn['this']}(self, v):"] + [f"        self.leaf.{n} = {vals(i)}" for i, n in enumerate(new["this"])]
+    for r, path in (("param1", "o.leaf"), ("param2", "o.mid.leaf")):
+        if r in routes:
+            L += ["", f"def {fn[r]}(o, v):"] + [f"    {path}.{n} = {vals(i)}" for i, n in enumerate(new[r])]
+    if "returned" in routes:
+        L += ["", "def build_top(v):", f"    o = {top}(v)", "    return o", "", f"def {fn['returned']}(v):", "    o = build_top(v)"]
+        L += [f"    o.leaf.{n} = {vals(i)}" for i, n in enumerate(new["returned"])] + ["    return o"]
+    L += ["", "def serve(req, other):", f"    b = {top}(other)"]
+    for r in routes:
+        L.append({"param1": f"    {fn[r]}(b, req)", "param2": f"    {fn[r]}(b, req)", "this": f"    b.{fn[r]}(req)",
+                  "returned": f"    d = {fn[r]}(req)"}[r])
+    L += [f"    sink(b.leaf.{new['param1'][0]})", f"    return b.leaf.{new['param1'][-1]}", "", "serve(1, 2)", ""]
+    return tag + ".py", "\n".join(L)
+
+
+def _nested_js(tag, leaf, mid, top, own, routes, new, allnew, fn, vals, ts=False):
+    a = ": any" if ts else ""
+    q = lambda x: x.replace('"', "'")
+    L = []
+    if ts:
+        L += [f"class {leaf} {{ " + " ".join(f"{o}: any;" for o in own) + f" constructor(seed{a}) {{ " + " ".join(f"this.{o} = seed;" for o in own) + " } }"]
+        L += [f"class {mid} {{ leaf: any; label: any; constructor(seed{a}) {{ this.leaf = new {leaf}(seed); this.label = 'm'; }} }}"]
+        L += [f"class {top} {{", "  leaf: any; mid: any; name: any;"]
+    else:
+        L += [f"class {leaf} {{ constructor(seed) {{ " + " ".join(f"this.{o} = seed;" for o in own) + " } }"]
+        L += [f"class {mid} {{ constructor(seed) {{ this.leaf = new {leaf}(seed); this.label = 'm'; }} }}"]
+        L += [f"class {top} {{"]
+    L += [f"  constructor(seed{a}) {{ this.leaf = new {leaf}(seed); this.mid = new {mid}(seed); this.name = 't'; }}"]
+    if "this" in routes:
+        L += [f"  {fn['this']}(v{a}) {{ " + " ".join(f"this.leaf.{n} = {q(vals(i))};" for i, n in enumerate(new["this"])) + " }"]
+    L += ["}"]
+    for r, path in (("param1", "o.leaf"), ("param2", "o.mid.leaf")):
+        if r in routes:
+            L += [f"function {fn[r]}(o{a}, v{a}) {{ " + " ".join(f"{path}.{n} = {q(vals(i))};" for i, n in enumerate(new[r])) + " }"]
+    if "returned" in routes:
+        L += [f"function build_top(v{a}) {{ let o = new {top}(v); return o; }}"]
+        L += [f"function {fn['returned']}(v{a}) {{ let o{a} = build_top(v); " + " ".join(f"o.leaf.{n} = {q(vals(i))};" for i, n in enumerate(new["returned"])) + " return o; }"]
+    L += [f"function serve(req{a}, other{a}) {{", f"  let b{a} = new {top}(other);"]
+    for r in routes:
+        L.append({"param1": f"  {fn[r]}(b, req);", "param2": f"  {fn[r]}(b, req);", "this": f"  b.{fn[r]}(req);",
+                  "returned": f"  let d = {fn[r]}(req);"}[r])
+    L += [f"  sink(b.leaf.{new['param1'][0]});", f"  return b.leaf.{new['param1'][-1]};", "}", "serve(1, 2);", ""]
+    return tag + (".ts" if ts else ".js"), "\n".join(L)
+
+
+def _nested_ts(*a):
+    return _nested_js(*a, ts=True)
+
+
+def _nested_java(tag, leaf, mid, top, own, routes, new, allnew, fn, vals):
+    cls = _cap(tag)
+    L = ["package nestgen;", ""]
+    L += [f"class {leaf} {{ " + " ".join(f"Object {o};" for o in own + allnew) + f" {leaf}(Object seed) {{ " + " ".join(f"this.{o} = seed;" for o in own) + " } }"]
+    L += [f"class {mid} {{ {leaf} leaf; String label; {mid}(Object seed) {{ this.leaf = new {leaf}(seed); this.label = \"m\"; }} }}"]
+    L += [f"class {top} {{", f"    {leaf} leaf; {mid} mid; String name;",
+          f"    {top}(Object seed) {{ this.leaf = new {leaf}(seed); this.mid = new {mid}(seed); this.name = \"t\"; }}"]
+    if "this" in routes:
+        L += [f"    void {fn['this']}(Object v) {{ " + " ".join(f"this.leaf.{n} = {vals(i)};" for i, n in enumerate(new["this"])) + " }"]
+    L += ["}", f"public class {cls} {{", "    static void sink(Object x) { }"]
+    for r, path in (("param1", "o.leaf"), ("param2", "o.mid.leaf")):
+        if r in routes:
+            L += [f"    static void {fn[r]}({top} o, Object v) {{ " + " ".join(f"{path}.{n} = {vals(i)};" for i, n in enumerate(new[r])) + " }"]
+    if "returned" in routes:
+        L += [f"    static {top} build_top(Object v) {{ {top} o = new {top}(v); return o; }}"]
+        L += [f"    static {top} {fn['returned']}(Object v) {{ {top} o = build_top(v); " + " ".join(f"o.leaf.{n} = {vals(i)};" for i, n in enumerate(new["returned"])) + " return o; }"]
+    L += [f"    public static Object serve(Object req, Object other) {{", f"        {top} b = new {top}(other);"]
+    for r in routes:
+        L.append({"param1": f"        {fn[r]}(b, req);", "param2": f"        {fn[r]}(b, req);", "this": f"        b.{fn[r]}(req);",
+                  "returned": f"        {top} d = {fn[r]}(req);"}[r])
+    L += [f"        sink(b.leaf.{new['param1'][0]});", f"        return b.leaf.{new['param1'][-1]};", "    }",
+          "    public static void main(String[] args) { serve(\"1\", \"2\"); }", "}", ""]
+    return f"nestgen/{cls}.java", "\n".join(L)
+
+
+def _nested_go(tag, leaf, mid, top, own, routes, new, allnew, fn, vals):
+    gv = lambda i: ["v", '"2"', '"g"', "v", '"3"', '"z"'][i % 6]
+    L = ["package main", "", f"type {leaf} struct {{"] + [f"\t{o} string" for o in own + allnew] + ["}"]
+    L += [f"type {mid} struct {{", f"\tleaf  *{leaf}", "\tlabel string", "}"]
+    L += [f"type {top} struct {{", f"\tleaf *{leaf}", f"\tmid  *{mid}", "\tname string", "}"]
+    L += [f"func new_{top}(seed string) *{top} {{", f"\tl := &{leaf}{{{own[0]}: seed, {own[1]}: seed}}",
+          f"\tm := &{mid}{{leaf: &{leaf}{{{own[0]}: seed}}, label: \"m\"}}", f"\treturn &{top}{{leaf: l, mid: m, name: \"t\"}}", "}"]
+    if "this" in routes:
+        L += [f"func (t *{top}) {fn['this']}(v string) {{"] + [f"\tt.leaf.{n} = {gv(i)}" for i, n in enumerate(new["this"])] + ["}"]
+    for r, path in (("param1", "o.leaf"), ("param2", "o.mid.leaf")):
+        if r in routes:
+            L += [f"func {fn[r]}(o *{top}, v string) {{"] + [f"\t{path}.{n} = {gv(i)}" for i, n in enumerate(new[r])] + ["}"]
+    if "returned" in routes:
+        L += [f"func {fn['returned']}(v string) *{top} {{", f"\to := new_{top}(v)"] + [f"\to.leaf.{n} = {gv(i)}" for i, n in enumerate(new["returned"])] + ["\treturn o", "}"]
+    L += ["func serve(req string, other string) string {", f"\tb := new_{top}(other)"]
+    for r in routes:
+        L.append({"param1": f"\t{fn[r]}(b, req)", "param2": f"\t{fn[r]}(b, req)", "this": f"\tb.{fn[r]}(req)",
+                  "returned": f"\td := {fn[r]}(req)\n\t_ = d"}[r])
+    L += [f"\tsink(b.leaf.{new['param1'][0]})", f"\treturn b.leaf.{new['param1'][-1]}", "}", ""]
+    return tag + ".go", "\n".join(L)
+
+
+def _nested_c(tag, leaf, mid, top, own, routes, new, allnew, fn, vals):
+    cv = lambda i: ["v", "2", "7", "v", "3", "9"][i % 6]
+    L = [f"struct {leaf} {{ " + " ".join(f"int {o};" for o in own + allnew) + " };",
+         f"struct {mid} {{ struct {leaf} *leaf; int label; }};",
+         f"struct {top} {{ struct {leaf} *leaf; struct {mid} *mid; int name; }};", "void sink(int x);"]
+    for r, path in (("param1", "o->leaf"), ("param2", "o->mid->leaf")):
+        if r in routes:
+            L += [f"void {fn[r]}(struct {top} *o, int v) {{"] + [f"    {path}->{n} = {cv(i)};" for i, n in enumerate(new[r])] + ["}"]
+    if "returned" in routes:
+        L += [f"struct {top} *build_top(struct {top} *o, int v) {{ o->leaf->{own[0]} = v; return o; }}",
+              f"struct {top} *{fn['returned']}(struct {top} *p, int v) {{", f"    struct {top} *o = build_top(p, v);"]
+        L += [f"    o->leaf->{n} = {cv(i)};" for i, n in enumerate(new["returned"])] + ["    return o;", "}"]
+    L += [f"int serve(int req, struct {top} *b) {{", f"    b->leaf->{own[0]} = 7;", f"    b->leaf->{own[1]} = 8;", f"    b->mid->leaf->{own[0]} = 9;"]
+    for r in routes:
+        L.append({"param1": f"    {fn[r]}(b, req);", "param2": f"    {fn[r]}(b, req);",
+                  "returned": f"    struct {top} *d = {fn.get('returned')}(b, req);"}[r])
+    L += [f"    sink(b->leaf->{new['param1'][0]});", f"    return b->leaf->{new['param1'][-1]};", "}", ""]
+    return tag + ".c", "\n".join(L)
+
+
+def _nested_php(tag, leaf, mid, top, own, routes, new, allnew, fn, vals):
+    pv = lambda i: ["$v", "2", '"g"', "$v", "3", '"z"'][i % 6]
+    L = ["<?php", f"class {leaf} {{ " + " ".join(f"public ${o};" for o in own) + " function __construct($seed) { " + " ".join(f"$this->{o} = $seed;" for o in own) + " } }"]
+    L += [f"class {mid} {{ public $leaf; public $label; function __construct($seed) {{ $this->leaf = new {leaf}($seed); $this->label = \"m\"; }} }}"]
+    L += [f"class {top} {{", "    public $leaf; public $mid; public $name;",
+          f"    function __construct($seed) {{ $this->leaf = new {leaf}($seed); $this->mid = new {mid}($seed); $this->name = \"t\"; }}"]
+    if "this" in routes:
+        L += [f"    function {fn['this']}($v) {{ " + " ".join(f"$this->leaf->{n} = {pv(i)};" for i, n in enumerate(new["this"])) + " }"]
+    L += ["}"]
+    for r, path in (("param1", "$o->leaf"), ("param2", "$o->mid->leaf")):
+        if r in routes:
+            L += [f"function {fn[r]}($o, $v) {{ " + " ".join(f"{path}->{n} = {pv(i)};" for i, n in enumerate(new[r])) + " }"]
+    if "returned" in routes:
+        L += [f"function build_top($v) {{ $o = new {top}($v); return $o; }}"]
+        L += [f"function {fn['returned']}($v) {{ $o = build_top($v); " + " ".join(f"$o->leaf->{n} = {pv(i)};" for i, n in enumerate(new["returned"])) + " return $o; }"]
+    L += ["function serve($req, $other) {", f"    $b = new {top}($other);"]
+    for r in routes:
+        L.append({"param1": f"    {fn[r]}($b, $req);", "param2": f"    {fn[r]}($b, $req);", "this": f"    $b->{fn[r]}($req);",
+                  "returned": f"    $d = {fn[r]}($req);"}[r])
+    L += [f"    sink($b->leaf->{new['param1'][0]});", f"    return $b->leaf->{new['param1'][-1]};", "}", "serve(1, 2);", ""]
+    return tag + ".php", "\n".join(L)
+
+
+def gen_nested(lang, rng, n_units=2):
+    """A generated project made only of nested-object writer units."""
+    files, groups = {}, []
+    for k in range(n_units):
+        rel, text, g = nested_unit(lang, rng, tag=f"nestgen{k}")
+        files[rel] = text
+        groups += g
+    return {"lang": lang, "files": files, "extra": [], "settings": taint_settings(lang), "origin": "generated", "probe_fields": groups}
 
 
 # ---------------------------------------------------------------------------------------------------
